@@ -114,6 +114,7 @@ fn main() {
         let mut ctx = Ctx::new(prop.id, tier, k, n);
         ctx.out_path = Some(outp);
         (prop.run)(&mut ctx);
+        report_crowd_findings(&mut ctx, prop.id);
         ctx.flush();
         run::cleanup_scratch();
         std::process::exit(0);
@@ -320,6 +321,39 @@ fn replay_child(exe: &std::path::Path, id: &str, tier: Tier, file: &std::path::P
     }
 }
 
+/// what the crowded-table probe of the sweep engine found (see engine/sweep.rs)
+fn report_crowd_findings(ctx: &mut Ctx, id: &str) {
+    let probes = engine::sweep::CROWD_PROBES.load(std::sync::atomic::Ordering::SeqCst);
+    if probes > 0 {
+        ctx.count_n("crowded-table-probe", probes);
+    }
+    for f in engine::sweep::take_crowd_findings() {
+        let label = if f.opts.is_empty() { "default".to_string() } else { f.opts.join(" ") };
+        let lines: Vec<String> = f.lines.iter().map(|l| String::from_utf8_lossy(l).into_owned()).collect();
+        let key = format!("{:06X} {}", f.addr, lines.last().cloned().unwrap_or_default());
+        ctx.violation(
+            &format!("{id}/crowded-table/{label}"),
+            &key,
+            || format!("lines {lines:?} of {:06X}: {}", f.addr, f.what),
+            || serde_json::json!({"kind": "crowd", "addr": f.addr, "lines": lines, "n": f.n, "cfg": f.opts}),
+        );
+    }
+}
+
+fn replay_crowd(ctx: &mut Ctx, id: &str, case: &Value) {
+    let opts: Vec<String> = case.get("cfg").and_then(|c| c.as_array()).map(|a| a.iter().filter_map(|x| x.as_str().map(String::from)).collect()).unwrap_or_default();
+    let o: Vec<&str> = opts.iter().map(|s| s.as_str()).collect();
+    let cfg = run::Cfg::new(&o);
+    let addr = case.get("addr").and_then(|x| x.as_u64()).unwrap_or(0) as u32;
+    let n = case.get("n").and_then(|x| x.as_u64()).unwrap_or(1100) as usize;
+    let lines: Vec<Vec<u8>> = case.get("lines").and_then(|s| s.as_array()).map(|a| a.iter().filter_map(|x| x.as_str().map(|s| s.as_bytes().to_vec())).collect()).unwrap_or_default();
+    let d = engine::sweep::crowd_difference(&cfg, addr, &lines, n);
+    run::say(&format!("{} line(s) of {addr:06X}, cfg [{}], alone and behind {n} other aircraft: {}", lines.len(), cfg.label(), d.clone().unwrap_or_else(|| "same row".into())));
+    if let Some(what) = d {
+        ctx.violation(&format!("{id}/crowded-table"), &format!("{addr:06X}"), || what, || case.clone());
+    }
+}
+
 fn do_replay(prop: &props::Prop, tier: Tier, file: &str) -> i32 {
     run::init(None);
     let Some(v) = std::fs::read(file).ok().and_then(|b| serde_json::from_slice::<Value>(&b).ok()) else {
@@ -336,7 +370,11 @@ fn do_replay(prop: &props::Prop, tier: Tier, file: &str) -> i32 {
             run::say(&format!("epoch {s}.{ns:09}"));
         }
     }
-    (prop.replay)(&mut ctx, &case);
+    if case.get("kind").and_then(|k| k.as_str()) == Some("crowd") {
+        replay_crowd(&mut ctx, prop.id, &case);
+    } else {
+        (prop.replay)(&mut ctx, &case);
+    }
     run::cleanup_scratch();
     if !ctx.out.machinery_errors.is_empty() {
         for m in &ctx.out.machinery_errors {
